@@ -173,7 +173,7 @@ fn judge(obs: Obs, exp: &[Px], w: usize, mismatch_sig: &str, what: &str, case: &
 // ---------------------------------------------------------------------------------------
 // families
 
-const FAMILIES: [&str; 12] = ["pos", "val16", "val8", "rgb5a3", "ci8val", "pal", "etc-alpha", "etc-oor", "etc-grid", "rand", "pattern", "poisoned"];
+const FAMILIES: [&str; 14] = ["pos", "val16", "val8", "rgb5a3", "ci8val", "pal", "pal-large", "etc-alpha", "etc-oor", "etc-neighbour", "etc-grid", "rand", "pattern", "poisoned"];
 
 /// Families whose expected output is not pinned to exact bytes in every channel (tolerance or
 /// open outcomes): their outputs are additionally compared between the two builds.
@@ -213,6 +213,8 @@ fn chunk_count(tier: Tier, fam: &str) -> u64 {
         "pal" => (pal_max(tier) * pal_max(tier)) as u64,
         "etc-grid" => 2 * 2 * 8 * 8 * 3,
         "etc-oor" => 2 * 8 * 8 * 3,
+        "etc-neighbour" => 96,
+        "pal-large" => PAL_LARGE.len() as u64,
         "etc-alpha" => 1,
         "poisoned" => 4,
         "rand" => 9 * pos_sizes(tier).len() as u64 * rand_seeds(tier),
@@ -496,6 +498,24 @@ fn revealing_palette() -> Vec<u16> {
     (0..256u32).map(|i| (0x8000 | ((2 * (i & 15)) << 10) | ((2 * (i >> 4)) << 5) | 0x15) as u16).collect()
 }
 
+/// palette images with 2^16 and more texels (a size computed in 16 bits wraps only here)
+const PAL_LARGE: [(usize, usize); 6] = [(256, 256), (640, 480), (255, 257), (512, 128), (8, 8192), (1024, 4)];
+fn run_pal_large(chunk: u64, t: &mut Tally, hashes: &mut Vec<Option<u64>>) {
+    let (w, h) = PAL_LARGE[chunk as usize % PAL_LARGE.len()];
+    let pal = revealing_palette();
+    let len = rp::ci8_len(w, h);
+    let case = case_of("pal-large", chunk);
+    for plane in 0..2 {
+        let payload: Vec<u8> = (0..len).map(|s| ((s >> (8 * plane)) as u8).wrapping_add((s >> 16) as u8)).collect();
+        let exp = rp::decode_ci8(w, h, &payload, &pal).unwrap();
+        t.cases += 1;
+        t.nontrivial += nontrivial(&exp) as u64;
+        t.class("palette:large");
+        let what = format!("TPL CI8 {}x{} (stored {} bytes), index plane {}", w, h, len, plane);
+        hashes.push(judge(observe_tpl(w, h, &payload, &pal), &exp, w, "palette-position", &what, &case, t));
+    }
+}
+
 fn run_pal(tier: Tier, chunk: u64, t: &mut Tally, hashes: &mut Vec<Option<u64>>) {
     let m = pal_max(tier) as u64;
     let w = (chunk / m + 1) as usize;
@@ -718,6 +738,49 @@ fn run_etc_grid(tier: Tier, chunk: u64, t: &mut Tally) {
     }
 }
 
+/// NEIGHBOURING blocks that differ in exactly one bit: for a defined block W the texture holds
+/// (W, W ^ 1<<k) and (W ^ 1<<k, W) for every k in 0..64 — a decoder that carries anything over
+/// from the previous block (its expanded colours, its mode, its tables) when "the same" fields
+/// come again meets every single-field difference here, the mode and flip bits included.
+fn run_etc_neighbour(chunk: u64, t: &mut Tally) {
+    let mut rng = rp::Rng(0xE7C1 ^ chunk.wrapping_mul(0x9E37_79B9_7F4A_7C15));
+    let w0 = rp::random_defined_etc1_word(&mut rng, true);
+    let case = case_of("etc-neighbour", chunk);
+    let mut words: Vec<u64> = Vec::with_capacity(256);
+    for k in 0..64u32 {
+        words.push(w0);
+        words.push(w0 ^ (1u64 << k));
+    }
+    for k in 0..64u32 {
+        words.push(w0 ^ (1u64 << k));
+        words.push(w0);
+    }
+    words.resize(1024, 0);
+    for (fmt, route) in [(Fmt::Etc1, Route::Direct), (Fmt::Etc1A4, Route::Direct), (Fmt::Etc1, Route::Ctpk)] {
+        let blocks: Vec<(u64, u64)> = words.iter().enumerate().map(|(j, w)| (alpha_word_for(j), *w)).collect();
+        let payload = rp::etc_payload(fmt, &blocks);
+        let exp = rp::decode_3ds(fmt, 128, 128, &payload).unwrap();
+        t.calls += 1;
+        t.cases += 256;
+        t.nontrivial += 256;
+        t.class("etc1:neighbour-pairs");
+        let what = format!("{} 128x128 of neighbouring blocks {:016x} ^ one bit via {:?}", fmt.name(), w0, route);
+        match observe_3ds(route, fmt, 128, 128, &payload) {
+            Ok(Ok(px)) if px.len() == exp.px.len() * 4 => {
+                if let Some((i, c)) = rp::first_mismatch(&exp.px, &px) {
+                    let (b, n) = rp::etc_source(128, i % 128, i / 128);
+                    violate(t, "etc1-block:neighbour".to_string(), || (format!("{}: block #{} = {:016x} (previous block {:016x}) texel {} channel {} is {:?}, reference {}", what, b, words[b], if b > 0 { words[b - 1] } else { 0 }, n, ["R", "G", "B", "A"][c], &px[i * 4..i * 4 + 4], rp::describe_px(&exp.px[i])), case.clone()));
+                } else {
+                    t.class_n("conforms", 256);
+                }
+            }
+            Ok(Ok(px)) => violate(t, format!("size:{}", fmt.name()), || (format!("{} returned {} bytes", what, px.len()), case.clone())),
+            Ok(Err(e)) => violate(t, format!("rejected:{}", fmt.name()), || (format!("{} returned Err({})", what, e), case.clone())),
+            Err(p) => violate(t, format!("panic@{}", p.location), || (format!("{} panicked: {}", what, p.message), case.clone())),
+        }
+    }
+}
+
 fn run_etc_oor(chunk: u64, t: &mut Tally, hashes: &mut Vec<Option<u64>>) {
     let g = grid_of(chunk, false);
     let words = grid_words(&g, true);
@@ -839,6 +902,8 @@ fn run_chunk(tier: Tier, fam: &str, chunk: u64, t: &mut Tally) -> Vec<Option<u64
         "pal" => run_pal(tier, chunk, t, &mut h),
         "etc-grid" => run_etc_grid(tier, chunk, t),
         "etc-oor" => run_etc_oor(chunk, t, &mut h),
+        "etc-neighbour" => run_etc_neighbour(chunk, t),
+        "pal-large" => run_pal_large(chunk, t, &mut h),
         "etc-alpha" => run_etc_alpha(t, &mut h),
         "rand" => run_rand(tier, chunk, t, &mut h),
         "pattern" => run_pattern(chunk, t, &mut h),
